@@ -58,6 +58,18 @@ void success_case(Tape& t, Stats& st, std::vector<InFile> fs, bool sample) {
 	mkdirs("%o/");
 	std::string out = t.pick<std::string>({"%o/out.vol", "./%o/out.vol", "%o/OUT.VOL", root() + "/%o/out.vol", "%o//out2.vol"});
 	bool pre = t.flag();
+	// one case in eight: the output sits next to an input and its name is a proper PREFIX of that input's name (another file, so legal)
+	bool prefixOut = false;
+	if (!fs.empty() && t.below(8) == 0) {
+		const InFile& f = fs[t.below(fs.size())];
+		if (f.name.size() >= 2) {
+			std::string cand = f.dir + f.name.substr(0, 1 + t.below(f.name.size() - 1));
+			bool ok = cand.back() != '.' || cand.size() > f.dir.size() + 1;
+			for (auto& g : fs) if (ieq(g.dir + g.name, cand)) ok = false;
+			for (const char* r : {"d0", "d1", "sub", "in", "o", "x", "all", ".", ".."}) if (ieq(cand.substr(f.dir.size()), r)) ok = false;
+			if (ok) { out = cand; prefixOut = true; pre = false; st.cls("output_is_prefix_of_an_input_name"); }
+		}
+	}
 	remove(out.c_str());
 	if (pre) write_file(out, std::vector<uint8_t>(37, 0x77));
 	if (sample && st.want_sample()) st.sample(render(fs, out));
